@@ -1528,6 +1528,53 @@ impl HttpsListener {
             validate_sozu_id_header(hdr)?;
         }
 
+        // Everything that can still refuse the patch runs before the first
+        // field is written, so a refused patch leaves the listener exactly
+        // as it was: the HSTS block must say `enabled`, the candidate rustls
+        // context (new ALPN on a **cloned** config) must build, and the
+        // merged answer templates must compile.
+        if let Some(ref new_hsts) = patch.hsts {
+            if new_hsts.enabled.is_none() {
+                return Err(ListenerError::HstsEnabledRequired);
+            }
+        }
+        let prepared_rustls = match patch.alpn_protocols {
+            Some(ref alpn_wrapper) => {
+                let mut candidate = self.config.clone();
+                candidate.alpn_protocols = alpn_wrapper.values.clone();
+                Some(Arc::new(Self::create_rustls_context(
+                    &candidate,
+                    self.resolver.clone(),
+                )?))
+            }
+            None => None,
+        };
+        let answers_changed = patch.http_answers.is_some() || !patch.answers.is_empty();
+        let prepared_answers = if answers_changed {
+            let mut http_answers = self.config.http_answers.clone();
+            let mut answers = self.config.answers.clone();
+            if let Some(ref new_answers) = patch.http_answers {
+                crate::sozu_command::state::merge_custom_http_answers(
+                    &mut http_answers,
+                    new_answers,
+                );
+            }
+            for (code, body) in &patch.answers {
+                if !body.is_empty() {
+                    answers.insert(code.clone(), body.clone());
+                }
+            }
+            let mut answers_map = answers.clone();
+            if let Some(ref legacy) = http_answers {
+                crate::protocol::http::answers::merge_legacy_into_map(&mut answers_map, legacy);
+            }
+            let compiled = HttpAnswers::new(&answers_map)
+                .map_err(|(name, error)| ListenerError::TemplateParse(name, error))?;
+            Some((http_answers, answers, compiled))
+        } else {
+            None
+        };
+
         // --- simple field patches ---
         if let Some(v) = patch.public_address {
             self.config.public_address = Some(v);
@@ -1622,23 +1669,8 @@ impl HttpsListener {
             self.config.h2_max_window_update_stream0_per_window = Some(v);
         }
 
-        // --- ALPN rebuild (may force a rustls ServerConfig rebuild) ---
-        //
-        // Transactional: build the candidate rustls context first using a
-        // **cloned** config that carries the new ALPN. Only if the build
-        // succeeds do we commit `self.config.alpn_protocols` and swap the
-        // Arc. This ensures a rustls failure (crypto provider transient,
-        // resolver error, etc.) leaves the listener observably unchanged —
-        // the master-side state would still diverge from the worker-side
-        // refusal, but the worker itself stays consistent.
-        if let Some(ref alpn_wrapper) = patch.alpn_protocols {
-            let mut candidate = self.config.clone();
-            candidate.alpn_protocols = alpn_wrapper.values.clone();
-            let new_rustls = Arc::new(Self::create_rustls_context(
-                &candidate,
-                self.resolver.clone(),
-            )?);
-            // Build succeeded — commit.
+        // --- ALPN commit (candidate context built above) ---
+        if let (Some(alpn_wrapper), Some(new_rustls)) = (&patch.alpn_protocols, prepared_rustls) {
             self.config.alpn_protocols = alpn_wrapper.values.clone();
             self.rustls_details = new_rustls;
             // Post: the commit is atomic — the live config must now name exactly
@@ -1651,30 +1683,11 @@ impl HttpsListener {
             );
         }
 
-        // HTTP answers: merge legacy `http_answers` and the new `answers`
-        // map on top of the existing config, then rebuild the listener-level
-        // template registry. Per-cluster overrides in
+        // Commit the answers prepared above; per-cluster overrides in
         // `HttpAnswers::cluster_answers` are preserved across the rebuild.
-        let answers_changed = patch.http_answers.is_some() || !patch.answers.is_empty();
-        if answers_changed {
-            if let Some(ref new_answers) = patch.http_answers {
-                crate::sozu_command::state::merge_custom_http_answers(
-                    &mut self.config.http_answers,
-                    new_answers,
-                );
-            }
-            for (code, body) in &patch.answers {
-                if !body.is_empty() {
-                    self.config.answers.insert(code.clone(), body.clone());
-                }
-            }
-
-            let mut answers_map = self.config.answers.clone();
-            if let Some(ref legacy) = self.config.http_answers {
-                crate::protocol::http::answers::merge_legacy_into_map(&mut answers_map, legacy);
-            }
-            let mut rebuilt = HttpAnswers::new(&answers_map)
-                .map_err(|(name, error)| ListenerError::TemplateParse(name, error))?;
+        if let Some((http_answers, answers, mut rebuilt)) = prepared_answers {
+            self.config.http_answers = http_answers;
+            self.config.answers = answers;
             let preserved = std::mem::take(&mut self.answers.borrow_mut().cluster_answers);
             rebuilt.cluster_answers = preserved;
             *self.answers.borrow_mut() = rebuilt;
